@@ -57,6 +57,33 @@ Proof.
     apply pc_not_truthy; intros ->; vm_compute in K; discriminate K.
 Qed.
 
+(* the merge functions fail only with AssertFail / TypeErr / OutOfFuel *)
+Lemma g_loop_not_raised sp fuel : forall l i r c, g_loop sp fuel l i r c <> Err Raised.
+Proof.
+  induction fuel as [|f IH]; intros l i r c; [discriminate|]. cbn [g_loop].
+  destruct (nth_error l i); [|discriminate].
+  match goal with |- (let '(r1, cont) := ?X in _) <> _ => destruct X as [r1 cont] end.
+  destruct cont; [apply IH|]. destruct (Nat.ltb 1 (r_n r1)); [|apply IH].
+  destruct (lit_okb (r_total r1)); [apply IH | discriminate].
+Qed.
+Lemma g_merge_not_raised sp l : g_merge sp l <> Err Raised.
+Proof. unfold g_merge. destruct (forallb (node_safe sp) l); [apply g_loop_not_raised | discriminate]. Qed.
+Lemma merges_not_raised cancun l : merges cancun l <> Err Raised.
+Proof.
+  unfold merges. pose proof (g_merge_not_raised sp_memzero l) as H1. unfold merge_memzero.
+  destruct (g_merge sp_memzero l) as [[c1 l1]|e1]; cbn [bind]; [|intros E; apply H1; exact E].
+  unfold merge_load. pose proof (g_merge_not_raised (sp_load "calldataload" "calldatacopy" true) l1) as H2.
+  destruct (g_merge (sp_load "calldataload" "calldatacopy" true) l1) as [[c2 l2]|e2]; cbn [bind]; [|intros E; apply H2; exact E].
+  pose proof (g_merge_not_raised (sp_load "dload" "dloadbytes" true) l2) as H3.
+  destruct (g_merge (sp_load "dload" "dloadbytes" true) l2) as [[c3 l3]|e3]; cbn [bind]; [|intros E; apply H3; exact E].
+  destruct (rewrite_mstore_dload l3) as [c4 l4].
+  destruct cancun.
+  - pose proof (g_merge_not_raised (sp_load "mload" "mcopy" false) l4) as H5.
+    destruct (g_merge (sp_load "mload" "mcopy" false) l4) as [[c5 l5]|e5]; cbn [bind]; [|intros E; apply H5; exact E].
+    destruct (remove_empty_seqs l5). discriminate.
+  - cbn [bind]. destruct (remove_empty_seqs l4). discriminate.
+Qed.
+
 Section T.
 Variable SM : Sem. (*section*)
 Hypothesis OK : SemOk SM. (*section*)
@@ -276,132 +303,205 @@ Qed.
 Lemma eval_seq_single x : eqval (Node "seq" [x]) x.
 Proof. intros s. reflexivity. Qed.
 
-(* optimize_sound *)
-Theorem opt_sound fuel : forall cancun pc e r,
-  wf e -> opt fuel cancun pc e = Ok r -> eqv (is_truthy pc) e (snd r) /\ wf (snd r).
+(* ---- static assertions ---- *)
+(* a node that never completes normally *)
+Definition always_halts (e : expr) : Prop := forall s, exists h, ev e s = Halt h.
+(* e contains -- after sound rewrites -- an assert / assert_unreachable whose condition is always zero (or which
+   is never reached because evaluation halts before) *)
+Inductive Blame : expr -> Prop :=
+| Blame_here op c : (op = "assert"%string \/ op = "assert_unreachable"%string) -> always_halts (Node op [c]) ->
+    Blame (Node op [c])
+| Blame_child op args a : In a args -> Blame a -> Blame (Node op args)
+| Blame_equiv t e e' : eqv t e e' -> Blame e' -> Blame e.
+
+Lemma assert_zero_halts op c v :
+  (op = "assert"%string \/ op = "assert_unreachable"%string) ->
+  eqv (is_truthy (pc_of op 0)) c (Lit v) -> lit_ok v -> evm_int true v = 0 -> always_halts (Node op [c]).
 Proof.
-  induction fuel as [|f IH]; intros cancun pc e r W H; [discriminate|].
-  destruct e as [v|x|op args]; try (cbn in H; inversion H; split; [apply eqv_refl | exact W]).
-  cbn [opt] in H.
-  destruct (mapi_res (fun i a => opt f cancun (pc_of op i) a) 0 args) as [rs|] eqn:ER; [|discriminate].
-  cbn [bind] in H.
-  apply wf_node in W.
-  destruct (mapi_res_crel op _ args 0 rs (fun j a r0 Wa E => IH cancun (pc_of op j) a r0 Wa E) W ER) as [CR Wz].
-  set (argz := map snd rs) in *. set (ac := existsb fst rs) in *.
-  pose proof (node_congr op args argz CR) as B.
-  set (t := is_truthy pc).
-  assert (FIN: forall changed new r0, eqv t (Node op argz) new -> wf new ->
-            fin_ (opt f cancun pc) (Node op args) ac changed new = Ok r0 ->
-            eqv t (Node op args) (snd r0) /\ wf (snd r0)).
-  { intros changed new r0 E Wn F. unfold fin_ in F. destruct (negb changed && negb ac).
-    - inversion F; subst r0. cbn [snd]. split; [apply eqv_refl | apply (proj2 (wf_node op args)); exact W].
-    - destruct (opt f cancun pc new) as [r1|] eqn:E1; [|discriminate]. cbn [bind] in F. inversion F; subst r0. cbn [snd].
-      destruct (IH cancun pc new r1 Wn E1) as [Q1 Q2]. split; [|exact Q2].
-      eapply eqv_trans; [apply eqval_eqv; exact B|]. eapply eqv_trans; [exact E | exact Q1]. }
-  assert (GENERIC: forall r0, fin_ (opt f cancun pc) (Node op args) ac false (Node op argz) = Ok r0 ->
-            eqv t (Node op args) (snd r0) /\ wf (snd r0)).
-  { intros r0 F. refine (FIN _ _ _ _ _ F); [apply eqv_refl | apply (proj2 (wf_node op argz)); exact Wz]. }
-  destruct (kind_of op) eqn:Kd.
+  intros O E Lv Z s. rewrite evm_int_u in Z by exact Lv. specialize (E s). rewrite eval_lit in E.
+  destruct O as [-> | ->]; cbn [eval].
+  - change (kind_of "assert") with KAssert. cbn iota. unfold bindd. cbn in E.
+    destruct (ev c s) as [v0 s1|h]; [|eauto]. destruct E as [-> E]. rewrite Z in E. cbn in E. rewrite E. eauto.
+  - change (kind_of "assert_unreachable") with KAssertUnreachable. cbn iota. unfold bindd. cbn in E. rewrite E, Z. cbn. eauto.
+Qed.
+
+(* the rule part of _optimize: what it rewrites to is equivalent; what it rejects statically always fails *)
+Lemma top_rule_sound cancun pc op argz :
+  Forall wf argz ->
+  match top_rule cancun pc op argz with
+  | AGeneric => True
+  | ARe _ new => eqv (is_truthy pc) (Node op argz) new /\ wf new
+  | ASingle x => eqv (is_truthy pc) (Node op argz) x /\ wf x
+  | AFail Raised => always_halts (Node op argz) /\ exists c, argz = [c] /\
+                    (op = "assert"%string \/ op = "assert_unreachable"%string)
+  | AFail _ => True
+  end.
+Proof.
+  intros Wz. set (t := is_truthy pc). unfold top_rule.
+  destruct (kind_of op) eqn:Kd; try exact I.
   - (* binop *)
     pose proof (kind_inv _ _ Kd) as Nm. cbn in Nm. subst op.
     destruct (arith o) as [p|] eqn:A.
-    + destruct argz as [|a [|b [|c0 r0]]] eqn:EA; try discriminate H.
+    + destruct argz as [|a [|b [|c0 r0]]]; try exact I.
       inversion Wz as [|? ? Wa Wb']; subst. inversion Wb' as [|? ? Wb _]; subst.
-      destruct (opt_binop_sound_all SM OK o a b pc Wa Wb) as (ro & Eo & So). rewrite Eo in H. cbn [bind] in H.
-      destruct ro as [e'|]; [|apply GENERIC; exact H].
-      destruct (So e' eq_refl) as [Q1 Q2]. exact (FIN _ _ _ Q1 Q2 H).
-    + destruct argz as [|a [|b [|c0 r0]]] eqn:EA; try discriminate H.
-      destruct (is_lit0 a) eqn:L0; [|apply GENERIC; exact H].
+      destruct (opt_binop_sound_all SM OK o a b pc Wa Wb) as (ro & Eo & So). rewrite Eo.
+      destruct ro as [e'|]; [|exact I]. exact (So e' eq_refl).
+    + destruct argz as [|a [|b [|c0 r0]]]; try exact I.
+      destruct (is_lit0 a) eqn:L0; [|exact I].
       destruct a as [[| |]| |]; try discriminate L0.
       inversion Wz as [|? ? Wa Wb']; subst. inversion Wb' as [|? ? Wb _]; subst.
-      refine (FIN _ _ _ _ Wb H). apply eqval_eqv. intros s.
+      split; [|exact Wb]. apply eqval_eqv. intros s.
       change (Node (bop_name o) [Lit 0; b]) with (Bin o (Lit 0) b). rewrite eval_bin.
       destruct (ev b s) as [vb s1|] eqn:Eb; [|reflexivity]. rewrite eval_lit. change (wrap 0) with 0.
       rewrite shift_zero; [reflexivity | eapply eval_range; eauto | exact A].
   - (* unop *)
-    destruct o; [|apply GENERIC; exact H].
-    destruct argz as [|[v| |] [|x2 rest2]] eqn:EA; try (apply GENERIC; exact H).
+    destruct o; [|exact I].
+    destruct argz as [|[v| |] [|x2 rest2]]; try exact I.
     pose proof (kind_inv _ _ Kd) as Nm. cbn in Nm. subst op.
     inversion Wz as [|? ? Wv Wr]; subst. cbn [wf] in Wv.
-    refine (FIN _ _ _ _ _ H); [|cbn [wf]; destruct (v =? 0); wl].
+    split; [|cbn [wf]; destruct (v =? 0); wl].
     apply eqval_eqv. intros s. change (Node "iszero" [Lit v]) with (Un U_iszero (Lit v)).
     rewrite eval_un, !eval_lit. cbn [uop_sem]. unfold w_iszero. rewrite wrap_zero_iff by exact Wv.
     destruct (v =? 0); reflexivity.
   - (* ceil32 *)
-    destruct argz as [|[v| |] [|x2 rest2]] eqn:EA; try (apply GENERIC; exact H).
+    destruct argz as [|[v| |] [|x2 rest2]]; try exact I.
     pose proof (kind_inv _ _ Kd) as Nm. cbn in Nm. subst op.
     inversion Wz as [|? ? Wv Wr]; subst. cbn [wf] in Wv.
-    destruct (lit_okb (ceil32_py v)) eqn:LO; [|discriminate H]. apply lit_okb_ok in LO.
-    refine (FIN true (Lit (ceil32_py v)) r _ LO H). apply eqval_eqv. intros s. cbn [eval]. unfold bindd, ret.
+    cbn zeta. destruct (lit_okb (ceil32_py v)) eqn:LO; [|exact I]. apply lit_okb_ok in LO.
+    split; [|exact LO]. apply eqval_eqv. intros s. cbn [eval]. unfold bindd, ret.
     change (kind_of "ceil32") with KCeil32. cbn iota. rewrite ceil32_fold by assumption. reflexivity.
   - (* seq *)
     pose proof (kind_inv _ _ Kd) as Nm. cbn in Nm. subst op.
-    destruct (merges cancun argz) as [[c l]|] eqn:EM; [|discriminate H]. cbn [bind] in H.
-    destruct (merges_ok cancun argz c l Wz EM) as [MQ MW].
-    assert (SINGLE: forall x, l = [x] -> (r0 <- opt f cancun pc x ;; Ok (true, snd r0)) = Ok r ->
-              eqv t (Node "seq" args) (snd r) /\ wf (snd r)).
-    { intros x -> F. destruct (opt f cancun pc x) as [r1|] eqn:E1; [|discriminate]. cbn [bind] in F.
-      inversion F; subst r. cbn [snd]. inversion MW as [|? ? Wx _]; subst.
-      destruct (IH cancun pc x r1 Wx E1) as [Q1 Q2]. split; [|exact Q2].
-      eapply eqv_trans; [apply eqval_eqv; exact B|]. eapply eqv_trans; [apply eqval_eqv; exact MQ|].
-      eapply eqv_trans; [apply eqval_eqv; apply eval_seq_single | exact Q1]. }
-    destruct l as [|x [|y l2]].
-    + refine (FIN _ _ _ _ _ H); [apply eqval_eqv; exact MQ | apply (proj2 (wf_node _ _)); exact MW].
-    + eapply SINGLE; eauto.
-    + refine (FIN _ _ _ _ _ H); [apply eqval_eqv; exact MQ | apply (proj2 (wf_node _ _)); exact MW].
+    destruct (merges cancun argz) as [[c l]|er] eqn:EM.
+    + destruct (merges_ok cancun argz c l Wz EM) as [MQ MW].
+      destruct l as [|x [|y l2]].
+      * split; [apply eqval_eqv; exact MQ | apply (proj2 (wf_node _ _)); exact MW].
+      * inversion MW as [|? ? Wx _]; subst. split; [|exact Wx].
+        eapply eqv_trans; [apply eqval_eqv; exact MQ | apply eqval_eqv; apply eval_seq_single].
+      * split; [apply eqval_eqv; exact MQ | apply (proj2 (wf_node _ _)); exact MW].
+    + (* the merges never raise a static assertion *)
+      destruct er; try exact I. exfalso. revert EM. apply merges_not_raised.
   - (* if *)
     pose proof (kind_inv _ _ Kd) as Nm. cbn in Nm. subst op.
     assert (LITC: forall v, lit_ok v -> (evm_int true v =? 0) = (wrap v =? 0)) by (intros v Lv; rewrite evm_int_u by exact Lv; reflexivity).
-    destruct argz as [|c [|t1 [|fl [|g rest]]]] eqn:EA; try (apply GENERIC; exact H).
-    + destruct c; apply GENERIC; exact H.
-    + (* two arguments *)
-      destruct c as [v| |]; try (apply GENERIC; exact H).
+    destruct argz as [|c [|t1 [|fl [|g rest]]]]; try exact I.
+    + destruct c; exact I.
+    + destruct c as [v| |]; try exact I.
       inversion Wz as [|? ? Wv Wr]; subst. inversion Wr as [|? ? Wt _]; subst. cbn [wf] in Wv.
       destruct (evm_int true v =? 0) eqn:EZ; rewrite (LITC v Wv) in EZ.
-      * refine (FIN _ _ _ _ _ H); [|cbn; exact I]. apply eqval_eqv. intros s. cbn [eval].
+      * split; [|cbn; exact I]. apply eqval_eqv. intros s. cbn [eval].
         change (kind_of "if") with KIf. change (kind_of "seq") with KSeq. cbn iota. unfold bindd, ret. cbn [map seq_den]. rewrite EZ. reflexivity.
-      * refine (FIN _ _ _ _ _ H); [|apply (proj2 (wf_node _ _)); constructor; auto]. apply eqval_eqv. intros s. cbn [eval].
+      * split; [|apply (proj2 (wf_node _ _)); constructor; auto]. apply eqval_eqv. intros s. cbn [eval].
         change (kind_of "if") with KIf. change (kind_of "seq") with KSeq. cbn iota. unfold bindd, ret. cbn [map seq_den]. rewrite EZ. reflexivity.
-    + (* three arguments *)
-      inversion Wz as [|? ? Wc Wr]; subst. inversion Wr as [|? ? Wt Wr2]; subst. inversion Wr2 as [|? ? Wf _]; subst.
+    + inversion Wz as [|? ? Wc Wr]; subst. inversion Wr as [|? ? Wt Wr2]; subst. inversion Wr2 as [|? ? Wf _]; subst.
       destruct c as [v| |].
       * cbn [wf] in Wc. destruct (evm_int true v =? 0) eqn:EZ; rewrite (LITC v Wc) in EZ.
-        -- refine (FIN _ _ _ _ _ H); [|apply (proj2 (wf_node _ _)); constructor; auto]. apply eqval_eqv. intros s. cbn [eval].
+        -- split; [|apply (proj2 (wf_node _ _)); constructor; auto]. apply eqval_eqv. intros s. cbn [eval].
            change (kind_of "if") with KIf. change (kind_of "seq") with KSeq. cbn iota. unfold bindd, ret. cbn [map seq_den]. rewrite EZ. reflexivity.
-        -- refine (FIN _ _ _ _ _ H); [|apply (proj2 (wf_node _ _)); constructor; auto]. apply eqval_eqv. intros s. cbn [eval].
+        -- split; [|apply (proj2 (wf_node _ _)); constructor; auto]. apply eqval_eqv. intros s. cbn [eval].
            change (kind_of "if") with KIf. change (kind_of "seq") with KSeq. cbn iota. unfold bindd, ret. cbn [map seq_den]. rewrite EZ. reflexivity.
-      * (* variable condition: branch swap *)
-        cbn [head_is] in H. refine (FIN _ _ _ _ _ H).
+      * cbn [head_is]. split.
         -- apply eqval_eqv. intros s. cbn [eval]. change (kind_of "if") with KIf. change (kind_of "iszero") with (KUn U_iszero).
            cbn iota. unfold bindd, ret. cbn [uop_sem]. unfold w_iszero.
            destruct (wrap (getvar SM s x) =? 0); reflexivity.
         -- apply (proj2 (wf_node _ _)). repeat constructor; auto.
-      * destruct (head_is (Node op args0) ["iszero"; "ne"]%string); [apply GENERIC; exact H|].
-        refine (FIN _ _ _ _ _ H).
+      * destruct (head_is (Node op args) ["iszero"; "ne"]%string); [exact I|]. split.
         -- apply eqval_eqv. intros s. cbn [eval]. change (kind_of "if") with KIf. change (kind_of "iszero") with (KUn U_iszero).
            cbn iota. unfold bindd, ret.
            match goal with |- context[match ?d s with _ => _ end] => destruct (d s) as [vc s1|] end; [|reflexivity].
            cbn [uop_sem]. unfold w_iszero. destruct (vc =? 0); reflexivity.
         -- apply (proj2 (wf_node _ _)). constructor; [|constructor; [|constructor]]; auto.
            apply (proj2 (wf_node _ _)). constructor; auto.
-    + destruct c; apply GENERIC; exact H.
+    + destruct c; exact I.
   - (* assert *)
     pose proof (kind_inv _ _ Kd) as Nm. cbn in Nm. subst op.
-    destruct argz as [|[v| |] [|x2 rest2]] eqn:EA; try (apply GENERIC; exact H).
+    destruct argz as [|[v| |] [|x2 rest2]]; try exact I.
     inversion Wz as [|? ? Wv Wr]; subst. cbn [wf] in Wv.
-    destruct (evm_int true v =? 0) eqn:EZ; [discriminate H|]. rewrite evm_int_u in EZ by exact Wv.
-    refine (FIN _ _ _ _ _ H); [|cbn; exact I]. apply eqval_eqv. intros s. cbn [eval].
-    change (kind_of "assert") with KAssert. change (kind_of "seq") with KSeq. cbn iota. unfold bindd, ret. cbn [map seq_den]. rewrite EZ. reflexivity.
+    destruct (evm_int true v =? 0) eqn:EZ.
+    + apply Z.eqb_eq in EZ. split; [|eauto]. apply (assert_zero_halts "assert" (Lit v) v); auto. apply eqv_refl.
+    + rewrite evm_int_u in EZ by exact Wv.
+      split; [|cbn; exact I]. apply eqval_eqv. intros s. cbn [eval].
+      change (kind_of "assert") with KAssert. change (kind_of "seq") with KSeq. cbn iota. unfold bindd, ret. cbn [map seq_den]. rewrite EZ. reflexivity.
   - (* assert_unreachable *)
     pose proof (kind_inv _ _ Kd) as Nm. cbn in Nm. subst op.
-    destruct argz as [|[v| |] [|x2 rest2]] eqn:EA; try (apply GENERIC; exact H).
+    destruct argz as [|[v| |] [|x2 rest2]]; try exact I.
     inversion Wz as [|? ? Wv Wr]; subst. cbn [wf] in Wv.
-    destruct (evm_int true v =? 0) eqn:EZ; [discriminate H|]. rewrite evm_int_u in EZ by exact Wv.
-    refine (FIN _ _ _ _ _ H); [|cbn; exact I]. apply eqval_eqv. intros s. cbn [eval].
-    change (kind_of "assert_unreachable") with KAssertUnreachable. change (kind_of "seq") with KSeq. cbn iota. unfold bindd, ret. cbn [map seq_den]. rewrite EZ. reflexivity.
-  - apply GENERIC; exact H.
-  - apply GENERIC; exact H.
+    destruct (evm_int true v =? 0) eqn:EZ.
+    + apply Z.eqb_eq in EZ. split; [|eauto]. apply (assert_zero_halts "assert_unreachable" (Lit v) v); auto. apply eqv_refl.
+    + rewrite evm_int_u in EZ by exact Wv.
+      split; [|cbn; exact I]. apply eqval_eqv. intros s. cbn [eval].
+      change (kind_of "assert_unreachable") with KAssertUnreachable. change (kind_of "seq") with KSeq. cbn iota. unfold bindd, ret. cbn [map seq_den]. rewrite EZ. reflexivity.
 Qed.
+
+(* result specification of _optimize: a returned tree is equivalent; a StaticAssertionException blames an assert *)
+Definition spec (t : bool) (e : expr) (r : res (bool * expr)) : Prop :=
+  match r with
+  | Ok r => eqv t e (snd r) /\ wf (snd r)
+  | Err Raised => Blame e
+  | Err _ => True
+  end.
+
+Lemma mapi_res_spec op (g : nat -> expr -> res (bool * expr)) :
+  forall l i,
+  (forall j a, wf a -> spec (is_truthy (pc_of op j)) a (g j a)) ->
+  Forall wf l ->
+  match mapi_res g i l with
+  | Ok rs => crel op i l (map snd rs) /\ Forall wf (map snd rs)
+  | Err Raised => exists a, In a l /\ Blame a
+  | Err _ => True
+  end.
+Proof.
+  induction l as [|a t IH]; intros i G W; cbn [mapi_res]; [cbn; auto|].
+  inversion W as [|? ? Wa Wt]; subst. pose proof (G i a Wa) as Ga. unfold spec in Ga.
+  destruct (g i a) as [y|er]; cbn [bind].
+  - specialize (IH (S i) G Wt). destruct (mapi_res g (S i) t) as [ys|er2]; cbn [bind].
+    + destruct IH as [R1 R2]. destruct Ga as [Q1 Q2]. cbn [map crel]. split; [split; assumption | constructor; assumption].
+    + destruct er2; try exact I. destruct IH as (b & Ib & Bb). exists b. split; [right; exact Ib | exact Bb].
+  - destruct er; try exact I. exists a. split; [left; reflexivity | exact Ga].
+Qed.
+
+Theorem opt_spec fuel : forall cancun pc e, wf e -> spec (is_truthy pc) e (opt fuel cancun pc e).
+Proof.
+  induction fuel as [|f IH]; intros cancun pc e W; [exact I|].
+  destruct e as [v|x|op args]; try (cbn; split; [apply eqv_refl | exact W]).
+  cbn [opt]. apply wf_node in W.
+  pose proof (mapi_res_spec op (fun i a => opt f cancun (pc_of op i) a) args 0
+                (fun j a Wa => IH cancun (pc_of op j) a Wa) W) as MS.
+  destruct (mapi_res (fun i a => opt f cancun (pc_of op i) a) 0 args) as [rs|er]; cbn [bind].
+  2:{ destruct er; try exact I. destruct MS as (a & Ia & Ba). cbn. eapply Blame_child; eauto. }
+  destruct MS as [CR Wz].
+  set (argz := map snd rs) in *. set (ac := existsb fst rs) in *.
+  pose proof (node_congr op args argz CR) as B.
+  set (t := is_truthy pc).
+  assert (REC: forall new, eqv t (Node op args) new -> wf new ->
+            spec t (Node op args) (r <- opt f cancun pc new ;; Ok (true, snd r))).
+  { intros new E Wn. pose proof (IH cancun pc new Wn) as S. fold t in S.
+    destruct (opt f cancun pc new) as [r1|er]; cbn [bind spec] in *.
+    - destruct S as [Q1 Q2]. cbn [snd]. split; [eapply eqv_trans; eauto | exact Q2].
+    - destruct er; try exact I. eapply Blame_equiv; eauto. }
+  assert (FIN: forall changed new, eqv t (Node op argz) new -> wf new ->
+            spec t (Node op args) (fin_ (opt f cancun pc) (Node op args) ac changed new)).
+  { intros changed new E Wn. unfold fin_. destruct (negb changed && negb ac).
+    - cbn. split; [apply eqv_refl | apply (proj2 (wf_node op args)); exact W].
+    - apply REC; [|exact Wn]. eapply eqv_trans; [apply eqval_eqv; exact B | exact E]. }
+  pose proof (top_rule_sound cancun pc op argz Wz) as TR. fold t in TR.
+  destruct (top_rule cancun pc op argz) as [|c new|x|er].
+  - apply FIN; [apply eqv_refl | apply (proj2 (wf_node op argz)); exact Wz].
+  - destruct TR as [Q1 Q2]. apply FIN; assumption.
+  - destruct TR as [Q1 Q2]. apply REC; [|exact Q2]. eapply eqv_trans; [apply eqval_eqv; exact B | exact Q1].
+  - destruct er; try exact I. destruct TR as [AH (c & EA & O)]. cbn.
+    apply (Blame_equiv t _ (Node op argz)); [apply eqval_eqv; exact B|].
+    rewrite EA in *. apply Blame_here; assumption.
+Qed.
+
+(* optimize_sound (Ok results) *)
+Theorem opt_sound fuel : forall cancun pc e r,
+  wf e -> opt fuel cancun pc e = Ok r -> eqv (is_truthy pc) e (snd r) /\ wf (snd r).
+Proof. intros cancun pc e r W H. pose proof (opt_spec fuel cancun pc e W) as S. rewrite H in S. exact S. Qed.
+(* StaticAssertionException is raised only when the tree contains, after sound rewrites, an assertion that cannot
+   succeed *)
+Theorem opt_raised fuel : forall cancun pc e, wf e -> opt fuel cancun pc e = Err Raised -> Blame e.
+Proof. intros cancun pc e W H. pose proof (opt_spec fuel cancun pc e W) as S. rewrite H in S. exact S. Qed.
 
 (* optimizer.optimize *)
 Theorem optimize_sound_gen cancun e e' :
@@ -409,5 +509,10 @@ Theorem optimize_sound_gen cancun e e' :
 Proof.
   unfold optimize. intros W H. destruct (opt 64 cancun PNone e) as [r|] eqn:E; [|discriminate].
   cbn [bind] in H. inversion H; subst e'. exact (opt_sound 64 cancun PNone e r W E).
+Qed.
+Theorem optimize_raised_gen cancun e : wf e -> optimize cancun e = Err Raised -> Blame e.
+Proof.
+  unfold optimize. intros W H. destruct (opt 64 cancun PNone e) as [r|er] eqn:E; [discriminate|].
+  cbn [bind] in H. inversion H; subst er. exact (opt_raised 64 cancun PNone e W E).
 Qed.
 End T.
